@@ -344,6 +344,7 @@ static int pick_next(void) {
     if (n > 1 && ex_on) {
         choice = ex_decide(n);
         if (n > max_enabled) max_enabled = n;
+        if (verbose) { VThread *c = &thr[order[choice]]; fprintf(stderr, "[pt %ld] cur=%d n=%d -> t%d %s obj=%d\n", npoints, cur, n, order[choice], opname[c->op], obj_id(c)); }
         npoints++;
     } else if (n > 1) {
         for (int d = 0; d < ndev; d++) if (dev_point[d] == npoints) choice = dev_choice[d];
@@ -362,6 +363,7 @@ static int pick_next(void) {
         if (npoints > horizon) { write_summary("horizon"); fprintf(stderr, "HORIZON: more than %ld decision points\n", horizon); _exit(5); }
     }
     nsteps++;
+    if (verbose > 1 && n == 1) { VThread *c = &thr[order[0]]; fprintf(stderr, "      (only) t%d %s obj=%d\n", order[0], opname[c->op], obj_id(c)); }
     if (thr[order[choice]].op == OP_SPIN) {
         if (++spin_streak > 300000) deadlock("livelock");
     } else spin_streak = 0;
@@ -656,6 +658,7 @@ int vs_replay_path(void (*body)(void *), void *arg, const char *digits) {
     pid_t pid = fork();
     if (pid == 0) {
         ex_on = 1; ex_drv = 0; active = 1; unlock_yield = 1; ex_no_cut = 1;
+        if (getenv("VS_VERBOSE")) verbose = atoi(getenv("VS_VERBOSE"));
         signal(SIGSEGV, ex_sig); signal(SIGBUS, ex_sig); signal(SIGFPE, ex_sig); signal(SIGABRT, ex_sig); signal(SIGILL, ex_sig);
         const char *e = getenv("VS_UNLOCK_YIELD");
         if (e) unlock_yield = atoi(e);
